@@ -208,6 +208,72 @@ fn check_big(name: &str, h: &ldpc_toolbox::sparse::SparseMatrix, acc: &mut Acc) 
     }
 }
 
+/// Few checks, thousands of information columns (widths around 64, 256, 4096, 8192; thorough 65536):
+/// staircase and non-staircase invertible tails, sparse and dense information parts.
+fn wide_families(thorough: bool) -> Vec<(String, ldpc_toolbox::sparse::SparseMatrix)> {
+    use ldpc_toolbox::sparse::SparseMatrix;
+    let mut out = Vec::new();
+    let mut widths = vec![65usize, 257, 4097, 5000, 8193];
+    if thorough {
+        widths.extend([63, 64, 255, 256, 4095, 4096, 16385, 65537]);
+    }
+    for &n in &widths {
+        for r in [2usize, 3, 8] {
+            let k = n - r;
+            for (tail, tname) in [(0usize, "staircase"), (1, "triangular"), (2, "singular")] {
+                for (info, iname) in [(0usize, "sparse"), (1, "dense")] {
+                    if tail == 2 && info == 1 {
+                        continue;
+                    }
+                    let mut h = SparseMatrix::new(r, n);
+                    let mut x = 0x0123_4567_89AB_CDEFu64 ^ ((n * 64 + r * 4 + tail) as u64);
+                    for i in 0..r {
+                        if info == 0 {
+                            h.insert(i, i % k);
+                            h.insert(i, k - 1 - (i * 3) % k);
+                            h.insert(i, (i * 2_654_435_761 + 99) % k);
+                        } else {
+                            for j in 0..k {
+                                x ^= x << 13;
+                                x ^= x >> 7;
+                                x ^= x << 17;
+                                if x & 3 == 0 {
+                                    h.insert(i, j);
+                                }
+                            }
+                        }
+                        match tail {
+                            0 => {
+                                h.insert(i, k + i);
+                                if i > 0 {
+                                    h.insert(i, k + i - 1);
+                                }
+                            }
+                            1 => {
+                                // unit lower triangular with a full first column: invertible, not a staircase
+                                h.insert(i, k + i);
+                                if i > 0 {
+                                    h.insert(i, k);
+                                }
+                            }
+                            _ => {
+                                // last two tail columns equal: singular
+                                if i + 2 < r {
+                                    h.insert(i, k + i);
+                                }
+                                h.insert(i, k + r - 2);
+                                h.insert(i, k + r - 1);
+                            }
+                        }
+                    }
+                    out.push((format!("wide:{}:{}:{}x{}", tname, iname, r, n), h));
+                }
+            }
+        }
+    }
+    out
+}
+
 fn staircase_matrix(r: usize, k: usize, h0: u64) -> Small {
     let n = k + r;
     let mut rows = Vec::new();
@@ -220,6 +286,14 @@ fn staircase_matrix(r: usize, k: usize, h0: u64) -> Small {
 }
 
 fn replay_element(v: &Value, acc: &mut Acc) {
+    if v["kind"] == "big" {
+        for (n, h) in crate::c09::big_families_pub(true).into_iter().chain(wide_families(true)) {
+            if Some(n.as_str()) == v["name"].as_str() {
+                check_big(&n, &h, acc);
+            }
+        }
+        return;
+    }
     let n = v["n"].as_u64().unwrap() as usize;
     let rows: Vec<u64> = v["rows"].as_array().unwrap().iter().map(|x| x.as_u64().unwrap()).collect();
     check_matrix(&Small { r: rows.len(), n, rows }, "replay", acc)
@@ -269,7 +343,8 @@ pub fn run(run: &Run) -> i32 {
     }
     if run.replay.is_none() {
         // many rows: dense invertible / singular tails (fill-in during elimination), reference by big bit-set rank
-        let fam = crate::c09::big_families_pub(run.thorough());
+        let mut fam = crate::c09::big_families_pub(run.thorough());
+        fam.extend(wide_families(run.thorough()));
         let a = par_items(&fam, |(name, h), a| check_big(name, h, a));
         acc = acc.merge(a);
     }
@@ -282,7 +357,7 @@ pub fn run(run: &Run) -> i32 {
         run,
         acc,
         Coverage {
-            rule: "every binary matrix of every listed shape (all masks) plus, for r up to the bound and k<=4, the exact staircase tail with every information part and every single-bit flip of the r x r tail; for each accepted matrix ALL 2^(n-r) messages and all message pairs (linearity); every matrix is additionally built in three scrambled insertion orders, with the messages passed as owned arrays, reversed views (stride -1) and stride-2 views, and must give the same verdict and codewords. Plus deterministic families with many rows (dense invertible and singular tails up to 40 (64) rows). Non-trivial = invertible tail and n > r.".into(),
+            rule: "every binary matrix of every listed shape (all masks) plus, for r up to the bound and k<=4, the exact staircase tail with every information part and every single-bit flip of the r x r tail; for each accepted matrix ALL 2^(n-r) messages and all message pairs (linearity); every matrix is additionally built in three scrambled insertion orders, with the messages passed as owned arrays, reversed views (stride -1) and stride-2 views, and must give the same verdict and codewords. Plus deterministic families with many rows (dense invertible and singular tails up to 40 (64) rows) and wide families (2, 3, 8 checks x 65..8193 (65537) columns: staircase, triangular and singular tails, sparse and dense information parts; six messages each). Non-trivial = invertible tail and n > r.".into(),
             exhaustive: true,
             extra,
             graph: None,
